@@ -78,14 +78,22 @@ def _fresh(base, sort):
 
 def prepare(ob: Ob):
     """Skolemise the goal, instantiate the schemas: returns the quantifier-free assertion list."""
-    from .ground import Q, instantiate
-    ground = [h for h in ob.hyps if not isinstance(h, Q)]
+    from .ground import Q, instantiate, collect
+    from .core import ClassTheory, class_theory_instances, Cls
+    use_classes = any(isinstance(h, ClassTheory) for h in ob.hyps)
+    ground = [h for h in ob.hyps if not isinstance(h, (Q, ClassTheory))]
     schemas = [h for h in ob.hyps if isinstance(h, Q)]
     goals = ob.goal if isinstance(ob.goal, (list, tuple)) else [ob.goal]
     gs = [g.skolem(_fresh) if isinstance(g, Q) else g for g in goals]
     goal = z3.And(*gs) if len(gs) != 1 else gs[0]
     target = z3.Not(goal) if ob.expect == "unsat" else goal
     insts = instantiate(ground + [target], schemas)
+    if use_classes:
+        terms = {}
+        for t in collect(ground + insts + [target]):
+            if z3.is_app(t) and t.sort() == Cls:
+                terms[t.get_id()] = t
+        insts = insts + class_theory_instances(list(terms.values()))
     ob.meta["instances"] = len(insts)
     return ground + insts + [target]
 
